@@ -5,7 +5,7 @@ import select
 import subprocess
 import time
 
-HARNESS = os.path.join(os.path.dirname(os.path.dirname(os.path.abspath(__file__))), "harness")
+HARNESS = os.environ.get("VERIF_HARNESS") or os.path.join(os.path.dirname(os.path.dirname(os.path.abspath(__file__))), "harness")
 WATCHDOG_S = 60.0
 
 
